@@ -216,6 +216,7 @@ func driverRT(c *Ctx) {
 	for i := 0; i < c.N; i++ {
 		g := c.gen(i)
 		gm := g.header(true)
+		g.Ladder, g.LadderTo = 40, 1025 // sizes next to powers of two: values, characters, children
 		how := []string{"factory", "lifecycle", "fill", "sml", "hsms", "incomplete", "factory", "fill"}[g.pick(8)]
 		big := false
 		if i%16 == 5 {
